@@ -3,6 +3,7 @@ package guards
 import (
 	"fmt"
 	"go/constant"
+	"go/token"
 	"go/types"
 
 	"golang.org/x/tools/go/ssa"
@@ -52,6 +53,10 @@ type Summary struct {
 	Res    []ResSummary
 	ErrIdx int  // index of the success indicator: the error result, or (comma-ok idiom) a trailing bool when there is no error result; -1 if none
 	OkBool bool // the indicator is a bool that is true on success
+	// OKFacts: linear facts g >= 0 over the function's own parameters (values and lengths) that hold at every return
+	// whose success indicator says "ok" (nil error / true): what a validation helper such as
+	// `func checkLen(data []byte, n int) error` establishes for its caller on the err == nil branch.
+	OKFacts []*ParamLin
 }
 
 // succIndex: the error result, else a trailing bool result of a multi-result function (`v, ok := f()`).
@@ -172,6 +177,13 @@ func (e *Engine) Summarize(f *ssa.Function) *Summary {
 		e.sums[f] = s
 		return s
 	}
+	s.OKFacts = a.okFacts(func(yield func(*ssa.BasicBlock)) {
+		for _, r := range rets {
+			if r.okp {
+				yield(r.b)
+			}
+		}
+	})
 	for j := 0; j < nres; j++ {
 		rs := &s.Res[j]
 		t := f.Signature.Results().At(j).Type()
@@ -283,6 +295,70 @@ func (e *Engine) Summarize(f *ssa.Function) *Summary {
 	}
 	e.sums[f] = s
 	return s
+}
+
+// okFacts: candidates are the integer comparisons the function itself branches on, expressed over its parameters
+// (x - y, y - x, each also minus one); kept are those entailed at every success return.
+func (a *FuncAn) okFacts(okBlocks func(func(*ssa.BasicBlock))) []*ParamLin {
+	var blocks []*ssa.BasicBlock
+	okBlocks(func(b *ssa.BasicBlock) { blocks = append(blocks, b) })
+	if len(blocks) == 0 {
+		return nil
+	}
+	var out []*ParamLin
+	seen := map[string]bool{}
+	for _, b := range a.Fn.Blocks {
+		iff, ok := b.Instrs[len(b.Instrs)-1].(*ssa.If)
+		if !ok {
+			continue
+		}
+		var cmps []*ssa.BinOp
+		var walk func(v ssa.Value, d int)
+		walk = func(v ssa.Value, d int) {
+			if d > 3 {
+				return
+			}
+			switch x := v.(type) {
+			case *ssa.BinOp:
+				switch x.Op {
+				case token.LSS, token.LEQ, token.GTR, token.GEQ, token.EQL, token.NEQ:
+					if _, _, isInt := a.E.intInfo(x.X.Type()); isInt {
+						cmps = append(cmps, x)
+					}
+				}
+			case *ssa.UnOp:
+				if x.Op == token.NOT {
+					walk(x.X, d+1)
+				}
+			}
+		}
+		walk(iff.Cond, 0)
+		for _, c := range cmps {
+			d := Add(a.Lin(c.X), a.Lin(c.Y), -1)
+			for _, g := range []Lin{d, d.plus(-1), Scale(d, -1), Scale(d, -1).plus(-1)} {
+				pl := a.toParamLin(g)
+				if pl == nil || (len(pl.Val) == 0 && len(pl.Len) == 0) {
+					continue
+				}
+				k := fmt.Sprint(pl.Val, pl.Len, pl.C)
+				if seen[k] {
+					continue
+				}
+				seen[k] = true
+				all := true
+				for _, rb := range blocks {
+					if !a.Entails(rb, g) {
+						all = false
+						break
+					}
+				}
+				if all {
+					out = append(out, pl)
+				}
+			}
+		}
+	}
+	return out
 }
 
 // condNonNeg: re-analyse f under the assumption that every integer parameter is >= 0.
